@@ -43,10 +43,11 @@ REQUIRED_COUNTERS = ['expected_refused', 'expected_allowed', 'refused_ok', 'allo
                      'ops_after_a_scope_was_left']
 ASSUMPTIONS = [
     'operations are issued with arguments that succeed and change an unprotected twin, so protection is the only reason to refuse',
-    'descendants of a sealed node are not unsealed individually (the property does not say which flag wins)',
+    'no operation is judged while a descendant of P carries a flag of its own that differs from P\'s (the property does not say which flag wins): flag changes at descendants are always directly followed by seal() / seal(False) at P, after which every descendant must have P\'s state',
+    'a value that is handed to a typed field while it has a parent is copied by the library, so only a root (or use_value_spec at the node itself) exposes the node to the conversions of a spec; while the node is not effectively sealed the outcome of such a call is a don\'t-care',
     'mutators other than accessor assignment/deletion and rebind are a don\'t-care while accessor writes are disabled',
     'operations that return a new value (copy, +, *, clone) may succeed but must leave the tree unchanged',
-    'a batch issued above P that also writes outside P must be refused and leave P unchanged; whether the writes outside P were applied before the refusal is a don\'t-care (the quantifier speaks of operations at P and below)',
+    'a batch issued above P that also writes outside P must be refused and leave P unchanged; when the call is turned down with a write-permission error "the whole tree stays exactly as it was" is read as: none of the batch was applied, also outside P (clause refused-batch-partly-applied); when it fails for another reason or wrongly succeeds, what happened outside P is a don\'t-care',
     'replacing the slot that holds P (or an ancestor of P) from above does not change P itself: not generated',
     'pg.Dict.update / |= take keys, not key paths, so they cannot address a location below P from above',
     'seal() / seal(False) / set_accessor_writable change flags, not the value: they are allowed in every scope; a clone of P carries the sealed flag of P (the library passes it to the constructor)',
@@ -101,6 +102,8 @@ FUNCTORS = {'fn3': fn3, 'fn_typed': fn_typed, 'SubFn': SubFn}
 P_FUNCTOR_FOR_OBJECT = 0.3    # an untyped object of the drawn tree becomes a functor
 P_FUNCTOR_FOR_LEAF = 0.05     # a primitive leaf becomes a functor / hyper value / DNA
 P_FUNCTOR_STEP = 0.15         # directed operation on a functor at or below P
+P_DESCENDANT_FLAG_OPS = 0.3   # a seal / unseal of P is preceded by flag changes below P
+P_ADOPT_STEP = 0.08           # a node at or below P is handed to an API that applies a spec
 
 
 def functor_desc(rng, subs=()):
@@ -306,6 +309,16 @@ def gen_flags(rng):
           [rng.choice(['clone-deep', 'clone-shallow'])] if r < 0.53 else ['unseal'])
   while len(prog) < 4 and rng.random() < 0.25:
     prog.append(rng.choice(['seal', 'unseal', 'clone-deep', 'clone-shallow']))
+  # Flags of DESCENDANTS of P changed on their own (seal / seal(False) at a node
+  # below P, a member below P replaced by an unsealed copy of itself under
+  # as_sealed(False)), always directly followed by seal() / seal(False) at P,
+  # which has to bring the whole sub-tree to one state.
+  if rng.random() < P_DESCENDANT_FLAG_OPS:
+    at = [k for k, name in enumerate(prog) if name in ('seal', 'unseal')]
+    if at:
+      k = rng.choice(at)
+      prog[k:k] = [f"{rng.choice(['seal-below', 'unseal-below', 'regraft'])}:{rng.randrange(64)}"
+                   for _ in range(rng.randint(1, 2))]
   return prog
 
 
@@ -394,7 +407,7 @@ def show_script(cfg):
     elif e[1] == 'acc':
       out.append(f"accessor_flag={cfg['acc_flag']}")
     else:
-      out.append(cfg['flags'][int(e[1].split(':')[1])])
+      out.append(cfg['flags'][int(e[1].split(':')[1])].split(':')[0])
   return ' '.join(out)
 
 
@@ -765,6 +778,77 @@ def gen_functor_step(rng, twin, below, typed):
           'scopes': []}
 
 
+# A schemaless pg.List / pg.Dict at or below P is handed to an API that applies
+# a value spec to it: P.use_value_spec(spec), or P given as the value of a
+# typed field (constructor argument, item assignment, rebind of a typed
+# holder). The spec is drawn so that applying it CHANGES the node on an
+# unprotected twin (int members become floats, a key with a default is added).
+
+def spec_recipe(rng, node):
+  """Plain-data recipe of a value spec for `node`, or None."""
+  def numeric(v):
+    return isinstance(v, (int, float)) and not isinstance(v, bool)
+  if isinstance(node, pg.List):
+    vals = list(node.sym_values())
+    if vals and all(numeric(v) for v in vals) and any(isinstance(v, int) for v in vals):
+      return ['L', 'float']
+    if vals and all(isinstance(v, pg.Dict) and v.value_spec is None for v in vals):
+      return ['L', ['D', [], True]]
+    return None
+  items = list(node.sym_items())
+  if not all(isinstance(k, str) for k, _ in items) or 'zz_added' in node:
+    return None
+  floats = [k for k, v in items if isinstance(v, int) and not isinstance(v, bool)
+            and rng.random() < 0.7]
+  add = not floats or rng.random() < 0.5
+  return ['D', floats, add]
+
+
+def build_spec(r):
+  if r[0] == 'L':
+    return T.List(T.Float() if r[1] == 'float' else build_spec(r[1]))
+  fields = [(k, T.Float()) for k in r[1]]
+  if r[2]:
+    fields.append(('zz_added', T.Int(default=7)))
+  return T.Dict(fields + [(T.StrKey(), T.Any())])
+
+
+def _run_adopt(node, a, B):
+  del B
+  spec = build_spec(a['spec'])
+  if a['via'] == 'use_value_spec':
+    return node.use_value_spec(spec)
+  if a['via'] == 'ctor':
+    return pg.Dict(h=node, value_spec=T.Dict([('h', spec)]))
+  with pg.as_sealed(False), pg.allow_writable_accessors(True):
+    holder = pg.Dict(h=None, value_spec=T.Dict([('h', spec.noneable())]))
+  if a['via'] == 'setitem':
+    holder['h'] = node
+  else:
+    holder.rebind(h=node)
+  return holder
+
+
+O.OPS.setdefault('adopt[typed]', O.Op('adopt[typed]', 'Adopt', None, _run_adopt))
+
+
+def gen_adopt_step(rng, twin, below):
+  cands = []
+  for r, ks, n in H.all_nodes([twin]):
+    if (r, ks) in below and isinstance(n, (pg.List, pg.Dict)) and n.value_spec is None:
+      recipe = spec_recipe(rng, n)
+      if recipe is not None:
+        cands.append((ks, recipe))
+  if not cands:
+    return None
+  ks, recipe = rng.choice(cands)
+  # as the value of a typed field a node that has a parent is copied: only a
+  # root is converted in place
+  via = 'use_value_spec' if ks or rng.random() < 0.4 else rng.choice(['ctor', 'setitem', 'rebind'])
+  return {'op': 'adopt[typed]', 'at': [0, list(ks)], 'args': {'spec': recipe, 'via': via},
+          'scopes': []}
+
+
 def op_name(step):
   """Mechanism name of the operation: '@ancestor' when it was issued above the
   protected node (rebind, sym_rebind and pg.patch share the name 'rebind')."""
@@ -825,6 +909,11 @@ def run_case_in_thread(ctx, i):
       if step is None:
         continue
       c['functor_steps'] += 1
+    elif rng.random() < P_ADOPT_STEP:
+      step = gen_adopt_step(rng, twin, below)
+      if step is None:
+        continue
+      c['adopt_steps'] += 1
     elif typed and rng.random() < 0.2:
       step = gen_completion_step(rng, twin, below)
       c['completion_steps'] += step is not None
@@ -892,12 +981,42 @@ def run_case_in_thread(ctx, i):
         c['deep_seal_checks'] += 1
         c['deep_seal_checks_inside_as_sealed_scope'] += inside
         wrong = seal_state_problems(node, st['sealed'])
+        mixed, st['mixed'] = st.get('mixed'), False
+        c['deep_seal_checks_after_descendant_flag_ops'] += bool(mixed)
         if wrong:
-          ctx.violation(clause, O.node_kind(node) + how + ('@as_sealed' if inside else ''),
+          ctx.violation(clause,
+                        'after-descendant-flag-op' if mixed else
+                        O.node_kind(node) + how + ('@as_sealed' if inside else ''),
                         f'{what} (script {show_script(cfg)}, as_sealed stack '
                         f"{stacks['sealed']}): nodes {wrong[:5]} of the value have "
                         f"is_sealed={not st['sealed']}", witness)
           st['verdict'] = 'flag-violation'     # the configuration ends here
+
+      def below_flag_op(name, pnode, st):
+        kind, k = name.split(':')
+        nodes_below = [n for n, _ in TM.nodes_of(pnode)[1:] if not isinstance(n, pg.Ref)]
+        if not nodes_below:
+          return
+        n = nodes_below[int(k) % len(nodes_below)]
+        c['flag_ops_on_descendants'] += 1
+        st['mixed'] = True
+        ctx.label = kind
+        if kind == 'seal-below':
+          n.seal()
+        elif kind == 'unseal-below':
+          n.seal(False)
+        else:
+          # the member is replaced by an unsealed copy of itself (same contents)
+          with pg.as_sealed(False), pg.allow_writable_accessors(True):
+            try:
+              fresh = n.clone(deep=True).seal(False)
+            except pg.WritePermissionError:
+              if not sealed_dna_below(n):
+                raise
+              fresh = None
+            if fresh is not None:
+              n.sym_parent.rebind({n.sym_path.key: fresh}, raise_on_no_change=False)
+        ctx.label = None
 
       def flag_op(name, stacks, st=st):
         pnode = st['pnode']
@@ -909,6 +1028,9 @@ def run_case_in_thread(ctx, i):
         # is a don't-care
         restrictive = (innermost(stacks['sealed']) is True
                        or innermost(stacks['writable']) is False)
+        if ':' in name:
+          below_flag_op(name, pnode, st)
+          return
         if isinstance(pnode, pg.Ref) and name != 'unseal':
           name = 'seal'
         if isinstance(pnode, pg.Functor) and name == 'ctor':
@@ -941,6 +1063,11 @@ def run_case_in_thread(ctx, i):
           pnode.seal(False)
           st['sealed'] = False
           deep_check(pnode, 'unseal-not-deep', '', stacks, f'after {cls}.seal(False)')
+        elif any(isinstance(n, pg.DNA) for n, _ in TM.nodes_of(pnode)):
+          # a copy of a pg.DNA gets a new metadata dict from DNA's own clone
+          # code, whose flag is not P's: which flags a COPY carries is not a
+          # statement of this property
+          c['dont_care_clone_of_dna'] += 1
         else:
           c['protected_node_cloned'] += 1
           try:
@@ -992,7 +1119,9 @@ def run_case_in_thread(ctx, i):
         c['op:' + op_name(step)] += 1
         where = (f"{O.show_step(step)} under {cfg_name(cfg)} (protected node at "
                  f"{ppath}, tree {D.show(desc)[:300]})")
-        tree_problems = TM.tree_ok([root])
+        adopt = step['op'] == 'adopt[typed]'
+        # (as the value of a typed field the root legitimately gets a parent)
+        tree_problems = [] if adopt else TM.tree_ok([root])
         if tree_problems:
           ctx.violation('tree-broken', step['op'],
                         f'{where}\n{tree_problems[0]}', witness)
@@ -1001,6 +1130,26 @@ def run_case_in_thread(ctx, i):
             ctx.violation('nonmutating-changed-tree', step['op'] + r_before.part(r_after),
                           f'{where}\n{r_before.diff(r_after)}', witness)
           st['verdict'] = 'new'
+        elif adopt:
+          tnode = conts[0]
+          mech = f"{O.node_kind(tnode)}.adopt/{by['sealed']}"
+          if not eff_sealed:
+            c['dont_care_adopt_while_not_sealed'] += 1
+            st['verdict'] = 'dont-care'
+          else:
+            n_ref += 1
+            c['expected_refused'] += 1
+            c['expected_refused_adopt'] += 1
+            ok = True
+            if p_after != p_before:
+              ctx.violation('sealed-tree-changed', mech + p_before.part(p_after),
+                            f'{where}\nthe call {"returned" if status == "ok" else "raised"}; '
+                            f'protected node: {p_before.diff(p_after)}', witness); ok = False
+            elif status == 'raise' and not isinstance(res, pg.WritePermissionError):
+              ctx.violation('sealed-wrong-error', mech,
+                            f'{where}\nraised {type(res).__name__}: {res!s:.200}', witness); ok = False
+            c['refused_ok'] += ok
+            st['verdict'] = 'refused'
         elif eff_sealed:
           n_ref += 1
           c['expected_refused'] += 1
@@ -1019,6 +1168,10 @@ def run_case_in_thread(ctx, i):
           elif r_after != r_before:
             if pure:
               ctx.violation('sealed-tree-changed', mech + r_before.part(r_after),
+                            f'{where}\n{r_before.diff(r_after)}', witness); ok = False
+            elif status == 'raise' and isinstance(res, pg.WritePermissionError):
+              # the call was turned down as a whole, yet some of it was applied
+              ctx.violation('refused-batch-partly-applied', mech,
                             f'{where}\n{r_before.diff(r_after)}', witness); ok = False
             else:
               c['dont_care_mixed_batch_applied_outside_protected'] += 1
